@@ -245,7 +245,7 @@ func loadFindings() []finding {
 func matchFinding(fs []finding, id, harness string, v *symgo.Violation) *finding {
 	for k := range fs {
 		f := &fs[k]
-		if f.Status != "known" || f.Property != id || f.Harness != harness {
+		if f.Status != "known" || f.Property != id || (f.Harness != harness && f.Harness != "*") {
 			continue
 		}
 		if f.Kind != "" && f.Kind != v.Kind {
